@@ -31,6 +31,10 @@ use std::time::Duration;
 
 use parking_lot::ArcMutexGuard;
 use parking_lot::Mutex;
+#[cfg(feature = "verif-hooks")]
+use crate::verif_hooks::{YieldMutex as PoolMutex, YieldRawMutex as PoolRawMutex};
+#[cfg(not(feature = "verif-hooks"))]
+use parking_lot::{Mutex as PoolMutex, RawMutex as PoolRawMutex};
 use tokio::sync::oneshot::Sender;
 use tracing::trace;
 
@@ -99,7 +103,7 @@ where
     B: Send + 'static,
     K: Key,
 {
-    inner: Arc<Mutex<PoolInner<C, B>>>,
+    inner: Arc<PoolMutex<PoolInner<C, B>>>,
 
     // NOTE: The token map is stored on the Pool, not the PoolInner so that the generic K argument doesn't
     // propogate into the pool inner and reference, only the connection type propogates.
@@ -128,7 +132,7 @@ where
 {
     pub(crate) fn new(config: Config) -> Self {
         Self {
-            inner: Arc::new(Mutex::new(PoolInner::new(config))),
+            inner: Arc::new(PoolMutex::new(PoolInner::new(config))),
             keys: Arc::new(Mutex::new(TokenMap::default())),
         }
     }
@@ -181,8 +185,6 @@ where
         P: Protocol<T::IO, B, Connection = C> + Send + 'static,
         C: PoolableConnection<B>,
     {
-        #[cfg(feature = "verif-hooks")]
-        crate::verif_hooks::yield_point("pool::checkout lock");
         let mut inner = self.inner.lock();
         let (tx, rx) = tokio::sync::oneshot::channel();
         let mut connector: Option<Connector<T, P, B>> = Some(connector);
@@ -252,7 +254,7 @@ where
     C: PoolableConnection<B>,
     B: Send + 'static,
 {
-    inner: WeakOpt<Mutex<PoolInner<C, B>>>,
+    inner: WeakOpt<PoolMutex<PoolInner<C, B>>>,
 }
 
 impl<C, B> fmt::Debug for PoolRef<C, B>
@@ -284,8 +286,6 @@ where
     }
 
     pub(in crate::client) fn lock(&self) -> Option<PoolGuard<C, B>> {
-        #[cfg(feature = "verif-hooks")]
-        crate::verif_hooks::yield_point("poolref lock");
         self.inner
             .upgrade()
             .map(|inner| PoolGuard(inner.lock_arc()))
@@ -310,7 +310,7 @@ where
 }
 
 pub(in crate::client) struct PoolGuard<C: PoolableConnection<B>, B: Send + 'static>(
-    ArcMutexGuard<parking_lot::RawMutex, PoolInner<C, B>>,
+    ArcMutexGuard<PoolRawMutex, PoolInner<C, B>>,
 );
 
 impl<C, B> Deref for PoolGuard<C, B>
